@@ -30,6 +30,7 @@ def borda_schemes(rng):
 
 
 class Borda(Suite):
+    scribbled_rate, bench_rate = 0.1, 0.1
     seasoned_rate = 0.12     # share of the cases run on algorithm objects that have served before (algos.seasoned)
     name = "borda"
     imports = ["Scheme", "Rank", "Borda", "Judge.JC12"]
@@ -95,10 +96,13 @@ class Borda(Suite):
         out = {"D": gen.observe(ds), "complete": bool(ds.is_complete)}
         try:
             alg = BordaCount(use_bucket_id=case["bid"])
+            if case.get("scribbled"):
+                from algos import scribble
+                scribble(ds)
             if case.get("seasoned"):
                 from algos import seasoned
                 seasoned(alg, case["D"], case["s"])
-            cons = alg.compute_consensus_rankings(ds, sc, True)
+            cons = alg.compute_consensus_rankings(ds, sc, True, True) if case.get("bench") else alg.compute_consensus_rankings(ds, sc, True)
             assert len(cons.consensus_rankings) == 1
             out["cons"] = [[e.value for e in b] for b in cons.consensus_rankings[0].buckets]
         except Exception as e:
